@@ -106,6 +106,11 @@ fn candidates(w: &World, p: &Plan) -> Vec<(World, Plan)> {
         c.args.list = false;
         out.push((c, p.clone()));
     }
+    if w.args.split_globs {
+        let mut c = w.clone();
+        c.args.split_globs = false;
+        out.push((c, p.clone()));
+    }
     if w.args.split_flags {
         let mut c = w.clone();
         c.args.split_flags = false;
